@@ -238,6 +238,48 @@ func (c *ctx) modeFlag() {
 	if n < 4 {
 		c.s.Unk("G16", "sourceMapped branches", "", fmt.Sprintf("only %d branches on the source-map flag recognised (floor 4)", n))
 	}
+	// every read of the flag is the whole (possibly negated) condition of one of those branches, or the copy into the expr printer
+	for _, fc := range c.files {
+		if fc.pkg != c.inter {
+			continue
+		}
+		info := fc.pkg.TypesInfo
+		fc := fc
+		ast.Inspect(fc.file, func(nn ast.Node) bool {
+			se, ok := nn.(*ast.SelectorExpr)
+			if !ok || se.Sel.Name != "sourceMapped" {
+				return true
+			}
+			if sel := info.Selections[se]; sel == nil || sel.Kind() != types.FieldVal {
+				return true
+			}
+			var p ast.Node = fc.par[se]
+			for {
+				if pe, ok := p.(*ast.ParenExpr); ok {
+					p = fc.par[pe]
+					continue
+				}
+				if u, ok := p.(*ast.UnaryExpr); ok && u.Op == token.NOT {
+					p = fc.par[u]
+					continue
+				}
+				break
+			}
+			switch v := p.(type) {
+			case *ast.IfStmt:
+				return true // analysed above
+			case *ast.KeyValueExpr:
+				_ = v
+				return true // exprPrinter{sourceMapped: g.sourceMapped} / generator{sourceMapped: ...}
+			case *ast.AssignStmt:
+				if isLvalueOf(v, se) {
+					return true
+				}
+			}
+			c.s.Bad("G16", fc.funcName(se)+"|source-map flag in a compound condition or expression", c.pos(se), "the source-map flag is consulted other than as the sole condition of a comment-only branch: source-map output can differ from base output in more than comments")
+			return true
+		})
+	}
 	// the flag is otherwise only set in newGenerator / copied to the expr printer
 	for _, fc := range c.files {
 		info := fc.pkg.TypesInfo
@@ -272,6 +314,166 @@ func (c *ctx) modeFlag() {
 			return true
 		})
 		c.s.Check(good, "G16", "generator.resetMagicTokens|replaces comment groups by a comment", c.pos(fd), "", "the magic-token pass writes non-comment text")
+	}
+}
+
+// condsInside: conditions contributed by if statements (not by early-return siblings).
+func condsInside(fc *fileCtx, conds []astx.Cond, fd *ast.FuncDecl) []astx.Cond {
+	var out []astx.Cond
+	for _, cd := range conds {
+		if is, ok := cd.At.(*ast.IfStmt); ok && !astx.Terminates(is.Body) {
+			out = append(out, cd)
+		}
+	}
+	return out
+}
+
+func isLvalueOf(as *ast.AssignStmt, e ast.Expr) bool {
+	for _, l := range as.Lhs {
+		if l == e {
+			return true
+		}
+	}
+	return false
+}
+
+// G19 dependency edges from the provider table; G20 synthetic nodes are position-less.
+func (c *ctx) dependsOn() {
+	fc, fd := c.findFunc(c.inter.PkgPath, "compiler", "scheduleFlowAndToposort")
+	if fd == nil {
+		c.s.Unk("G19", "compiler.scheduleFlowAndToposort", "", "not found")
+	} else {
+		info := fc.pkg.TypesInfo
+		n := 0
+		astx.Writes(fd.Body, func(l ast.Expr, at ast.Node) {
+			se, ok := astx.Unparen(l).(*ast.SelectorExpr)
+			if !ok || se.Sel.Name != "DependsOn" {
+				return
+			}
+			n++
+			as, isAs := at.(*ast.AssignStmt)
+			good := isAs && len(as.Rhs) == 1
+			if good {
+				call, ok := as.Rhs[0].(*ast.CallExpr)
+				good = ok && astx.IsBuiltin(info, call, "append") && len(call.Args) == 2 && astx.Same(info, call.Args[0], l)
+				if good {
+					ix, ok := call.Args[1].(*ast.IndexExpr)
+					good = ok && strings.HasSuffix(astx.Short(ix.X), ".Funcs")
+				}
+			}
+			// unconditional inside its loops
+			conds := 0
+			for _, cd := range fc.par.Known(at, fd) {
+				if is, ok := cd.At.(*ast.IfStmt); ok && fc.par.Within(is, fd.Body) {
+					conds++
+				}
+			}
+			c.s.Check(good && conds == 0, "G19", "scheduleFlowAndToposort|DependsOn gets every provider, unconditionally", c.pos(at), "one edge per dependency type that a function provides (duplicates are harmless: the scheduler counts and notifies per occurrence)", "a dependency edge is dropped or added conditionally when DependsOn is built: the generated job can start before a provider (or its own predicate) finished")
+		})
+		if n != 1 {
+			c.s.Unk("G19", "scheduleFlowAndToposort|DependsOn construction", c.pos(fd), fmt.Sprintf("%d assignments to DependsOn (want 1)", n))
+		}
+		// the Dependencies closure: for each typ: providers.At(typ) ok => append
+		var lit *ast.FuncLit
+		ast.Inspect(fd.Body, func(nn ast.Node) bool {
+			if kv, ok := nn.(*ast.KeyValueExpr); ok {
+				if id, ok := kv.Key.(*ast.Ident); ok && id.Name == "Dependencies" {
+					lit, _ = kv.Value.(*ast.FuncLit)
+				}
+			}
+			return true
+		})
+		good := false
+		if lit != nil {
+			ast.Inspect(lit.Body, func(nn ast.Node) bool {
+				rs, ok := nn.(*ast.RangeStmt)
+				if !ok || !strings.HasSuffix(astx.Short(rs.X), ".Dependencies") {
+					return true
+				}
+				// body: if i, ok := providers.At(typ).(int); ok { deps = append(deps, i) }
+				if len(rs.Body.List) == 1 {
+					if is, ok := rs.Body.List[0].(*ast.IfStmt); ok && is.Else == nil && len(is.Body.List) == 1 && is.Init != nil {
+						if as, ok := is.Body.List[0].(*ast.AssignStmt); ok && len(as.Rhs) == 1 {
+							if call, ok := as.Rhs[0].(*ast.CallExpr); ok && astx.IsBuiltin(info, call, "append") && strings.Contains(astx.Short(is.Init.(*ast.AssignStmt).Rhs[0]), "providers.At(") {
+								good = true
+							}
+						}
+					}
+				}
+				return true
+			})
+		}
+		c.s.Check(good, "G19", "scheduleFlowAndToposort|graph edges = provider of every dependency type (incl. predicate sentinels)", c.pos(fd), "", "the dependency graph is not built from the provider of every type in function.Dependencies")
+	}
+	// consumer edges come from function.Dependencies only (it includes the predicate sentinel); function.inputs() omits it
+	nIn := 0
+	c.eachCall(func(fc *fileCtx, call *ast.CallExpr, fn *types.Func) {
+		if fn != nil && fn.Name() == "inputs" && fn.Pkg() == c.inter.Types {
+			nIn++
+			c.s.Bad("G19", fc.funcName(call)+"|walks function.inputs() instead of function.Dependencies", c.pos(call), "graph code iterates function.inputs(), which omits the predicate sentinel a gated task depends on: missing providers behind predicates are accepted / inputs consumed only by predicates are reported unused")
+		}
+	})
+	if nIn == 0 {
+		c.s.OK("G19", "stratum B|graph code never iterates function.inputs()", "", "all consumer edges are read from function.Dependencies")
+	}
+	if fc, fd := c.findFunc(c.inter.PkgPath, "compiler", "compileTask"); fd != nil {
+		info := fc.pkg.TypesInfo
+		good := false
+		astx.Writes(fd.Body, func(l ast.Expr, at ast.Node) {
+			if !strings.HasSuffix(astx.Short(l), ".Function.Dependencies") {
+				return
+			}
+			as, ok := at.(*ast.AssignStmt)
+			if !ok || len(as.Rhs) != 1 {
+				return
+			}
+			call, ok := as.Rhs[0].(*ast.CallExpr)
+			if !ok || !astx.IsBuiltin(info, call, "append") || len(call.Args) != 2 || !strings.HasSuffix(astx.Short(call.Args[1]), ".Predicate.SentinelOutput") {
+				return
+			}
+			conds := fc.par.Known(at, fd)
+			for _, cd := range conds {
+				if e, ok := astx.EqNil(info, cd.E); ok && !cd.Pos && strings.HasSuffix(astx.Short(e), ".Predicate") && len(condsInside(fc, conds, fd)) == 1 {
+					good = true
+				}
+			}
+		})
+		c.s.Check(good, "G19", "compileTask|a task with a predicate depends on the predicate's sentinel output", c.pos(fd), "", "the predicate sentinel is not appended to the gated task's Dependencies exactly when it has a predicate: the task is not ordered after its predicate")
+	} else {
+		c.s.Unk("G19", "compiler.compileTask", "", "not found")
+	}
+	// G20
+	n := 0
+	for _, fc := range c.files {
+		info := fc.pkg.TypesInfo
+		fc := fc
+		ast.Inspect(fc.file, func(nn ast.Node) bool {
+			cl, ok := nn.(*ast.CompositeLit)
+			if !ok {
+				return true
+			}
+			t := info.TypeOf(cl)
+			nt, ok := t.(*types.Named)
+			if !ok || nt.Obj().Pkg() == nil || nt.Obj().Pkg().Path() != "go/ast" {
+				return true
+			}
+			n++
+			positioned := ""
+			for _, e := range cl.Elts {
+				if kv, ok := e.(*ast.KeyValueExpr); ok {
+					if id, ok := kv.Key.(*ast.Ident); ok {
+						if ft := info.TypeOf(kv.Value); ft != nil && ft.String() == "go/token.Pos" {
+							positioned = id.Name
+						}
+					}
+				}
+			}
+			c.s.Check(positioned == "", "G20", fc.funcName(cl)+"|synthetic ast."+nt.Obj().Name()+" carries no position", c.pos(cl), "the expression printer tells user expressions from synthetic ones by Pos().IsValid()", "a synthetic AST node is given a source position ("+positioned+"): the printer would hoist it as a user expression, colliding with the user expression at that position (the generated code then does not compile)")
+			return true
+		})
+	}
+	if n == 0 {
+		c.s.OK("G20", "stratum B|no synthetic AST node", "", "the generator constructs no go/ast node")
 	}
 }
 
@@ -434,7 +636,10 @@ var Rules = []report.Rule{
 	{ID: "G15", Floor: 3, Props: []string{"C16"}, Text: "GenerateFile copies the source by a chained offset walk (header through the tag inverter, text between directives, tail)"},
 	{ID: "G16", Floor: 6, Props: []string{"C20", "C17"}, Text: "every branch on the source-map flag guards only comment-emitting statements or the comment-to-comment magic replacement; the mode is consulted nowhere else"},
 	{ID: "G17", Floor: 5, Props: []string{"C13"}, Text: "no error is dropped outside the accepted-idiom table; main turns a run() error into a non-zero exit"},
-	{ID: "G18", Floor: 3, Props: []string{"C02", "C13"}, Text: "no Go map keyed by types.Type; type/predicate ids are memoised through typeutil.Map"},
+	{ID: "G19", Floor: 4, Props: []string{"C01", "C02", "C11", "C14"}, Text: "scheduleFlowAndToposort gives every function one DependsOn edge per provider of each of its dependency types (predicate sentinels included), unconditionally"},
+	{ID: "G20", Floor: 1, Props: []string{"C13", "C15"}, Text: "AST nodes constructed by the generator carry no source position (the expression printer hoists exactly the positioned, i.e. user-written, expressions)"},
+	{ID: "G21", Floor: 8, Props: []string{"C13"}, Text: "every index into a slice/tuple whose length is the arity of a user function is in range for every length the dominating tests admit (evaluated per hypothesis len == 0..6)"},
+	{ID: "G18", Floor: 3, Props: []string{"C02", "C13", "C14"}, Text: "no Go map keyed by types.Type; type/predicate ids are memoised through typeutil.Map"},
 }
 
 // Run executes all G-rules.
@@ -459,5 +664,7 @@ func Run(repo *load.Repo, s *report.Sink) error {
 	c.modeFlag()
 	c.errorPlumbing()
 	c.typeKeyed()
+	c.dependsOn()
+	c.bounds()
 	return nil
 }
